@@ -374,8 +374,8 @@ func (ai *absInterp) runBlock(fn *ssa.Function, b, from *ssa.BasicBlock, st *abs
 		*outs = append(*outs, pathOut{conds: st.conds, err: "path budget exceeded"})
 		return
 	}
-	if visits[b] > 0 {
-		*outs = append(*outs, pathOut{conds: st.conds, err: "loop in emitter " + fn.Name() + " (not straight-line)"})
+	if visits[b] > 64 {
+		*outs = append(*outs, pathOut{conds: st.conds, err: "loop in emitter " + fn.Name() + " does not terminate within 64 iterations under abstract evaluation"})
 		return
 	}
 	visits[b]++
@@ -401,6 +401,10 @@ func (ai *absInterp) runBlock(fn *ssa.Function, b, from *ssa.BasicBlock, st *abs
 			atom := ""
 			if ab, ok := c.(ABool); ok {
 				atom = ab.Atom
+			}
+			if visits[b] > 1 {
+				*outs = append(*outs, pathOut{conds: st.conds, err: "loop in emitter " + fn.Name() + " whose condition depends on symbolic input"})
+				return
 			}
 			s1 := st.clone()
 			s1.conds = append(s1.conds, pathCond{x.Cond, true, atom})
@@ -519,6 +523,12 @@ func (ai *absInterp) val(st *absState, v ssa.Value) aval {
 	switch c := v.(type) {
 	case *ssa.Const:
 		if c.Value == nil {
+			// the nil slice of bytes is an empty byte template
+			if sl, ok := c.Type().Underlying().(*types.Slice); ok {
+				if ew, _ := typeWidth(sl.Elem()); ew == 8 {
+					return ASlice{bk: &backing{}, off: 0, len: 0, cap: 0}
+				}
+			}
 			return nil
 		}
 		if c.Value.Kind() == constant.Bool {
@@ -687,6 +697,27 @@ func (ai *absInterp) compute(st *absState, v ssa.Value) aval {
 		case token.ADD, token.SUB:
 			if lok && rok {
 				return linArith(la, ra, x.Op)
+			}
+			return nil
+		case token.MUL, token.QUO, token.REM:
+			if lok && rok {
+				if a, ok1 := la.constVal(); ok1 {
+					if b, ok2 := ra.constVal(); ok2 {
+						switch x.Op {
+						case token.MUL:
+							return constAInt(a*b, la.W, la.Signed)
+						case token.QUO:
+							if b != 0 {
+								return constAInt(a/b, la.W, la.Signed)
+							}
+						case token.REM:
+							if b != 0 {
+								return constAInt(a%b, la.W, la.Signed)
+							}
+						}
+					}
+				}
+				return topAInt(la.W)
 			}
 			return nil
 		case token.LSS, token.LEQ, token.GTR, token.GEQ, token.EQL, token.NEQ:
